@@ -57,9 +57,10 @@ CONSTANTS
   RespCap,      \* cap of the modelled backlog of ResponsesCh (senders blocked in the send)
   WithIndexer,  \* model the indexer service loops
   MaxHeaders,   \* block headers delivered to the indexer service
+  Foreign,      \* TRUE: API clients also uninstall OTHER clients' filters (several clients, one filter id)
   TraceMode     \* TRUE in trace validation: admit the hook-order commutations of a rendez-vous (sender's hook first)
 
-AllDefects == {"D11", "D12", "D25", "D26", "D27"}
+AllDefects == {"D11", "D12", "D25", "D26", "D27", "SplitUninstall"}
 ASSUME Known \subseteq AllDefects
 
 Topics  == 1..NTopics
@@ -100,6 +101,7 @@ variables
   errClosed = [s \in Subs |-> FALSE];               \* close(f.err)
   subTopic  = [s \in Subs |-> 0];
   subState  = [s \in Subs |-> "new"];               \* ghost: new | live | failed | unsub | expired
+  unTotal   = [s \in Subs |-> 0];                   \* ghost: Unsubscribe calls ever made for the subscription
   unReq     = [s \in Subs |-> 0];                   \* Unsubscribe goroutines not yet through their send
   resp = <<>>; emitted = 0;                         \* WSClient.ResponsesCh
   \* ---- PublicFilterAPI (api.go)
@@ -115,6 +117,9 @@ define {
   LiveSubs(t) == {s \in Subs : subState[s] = "live" /\ subTopic[s] = t}
 
   NoCrash == crashed = "no"
+
+  (* at most one Unsubscribe per installed subscription ever reaches eventLoop (it ends every uninstall with close(f.err)) *)
+  NoDoubleUninstall == \A s \in Subs : unTotal[s] <= 1
 
   (* a topic with a live subscriber stays registered, and the subscriber stays connected *)
   NoLostTopic == \A s \in Subs : subState[s] = "live" =>
@@ -262,7 +267,7 @@ pt_done: skip;
 
 \* ------------------------------------------------------------------ clients
 process (client \in CLs)
-variables round = 1; cs = SubOf(self - 30, 1); ct = 0; seen = FALSE; ok = FALSE; polls = 0; found = FALSE;
+variables round = 1; cs = SubOf(self - 30, 1); ct = 0; seen = FALSE; ok = FALSE; polls = 0; found = FALSE; fx = 0;
 {
 c_begin:
   while (round <= Rounds) {
@@ -309,13 +314,32 @@ g_unlock:
                fmu := 0;
                goto c_use }
       or     {
-u_lock:                                             \* UninstallFilter: Lock; delete(api.filters, id); Unlock
+u_lock:                                             \* UninstallFilter: Lock; f, found := filters[id]; delete; Unlock; f.s.Unsubscribe
                await fmu = 0;
                found := cs \in filters;
-               filters := filters \ {cs};
                if (subState[cs] = "live") { subState[cs] := "unsub" };
-               if (found) { unReq[cs] := unReq[cs] + 1 };    \* f.s.Unsubscribe(api.events): go func() { es.uninstall <- s }
+               if (found) { unReq[cs] := unReq[cs] + 1; unTotal[cs] := unTotal[cs] + 1 };   \* go func() { es.uninstall <- s }
+               if (~("SplitUninstall" \in Known /\ found)) { filters := filters \ {cs}; goto c_next };
+u_del:                                              \* deviation SplitUninstall: the delete in a second critical section
+               await fmu = 0;
+               filters := filters \ {cs};
                goto c_next }
+      or     {                                      \* UninstallFilter(id of ANOTHER client's filter): same code, foreign id
+               await Foreign /\ polls < MaxPolls /\ (coSpawned \ {cs}) # {};
+               polls := polls + 1;
+xu_lock:
+               await fmu = 0;
+               with (x \in coSpawned \ {cs}) { fx := x };
+               found := fx \in filters;
+               if (found) {
+                 unReq[fx] := unReq[fx] + 1; unTotal[fx] := unTotal[fx] + 1;
+                 if (subState[fx] = "live") { subState[fx] := "unsub" };
+               };
+               if (~("SplitUninstall" \in Known /\ found)) { filters := filters \ {fx}; goto c_use };
+xu_del:
+               await fmu = 0;
+               filters := filters \ {fx};
+               goto c_use }
       or     { goto c_next };                       \* abandon the filter (left to timeoutLoop)
     } else {
 c_recv:                                             \* the rpc-subscription goroutine of NewHeads / Logs
@@ -324,13 +348,13 @@ c_recv:                                             \* the rpc-subscription goro
       or     { skip };                              \* rpcSub.Err() / notifier.Closed()
 c_unsub:                                            \* sub.Unsubscribe(api.events)
       subState[cs] := "unsub";
-      unReq[cs] := unReq[cs] + 1;
+      unReq[cs] := unReq[cs] + 1; unTotal[cs] := unTotal[cs] + 1;
 c_cancel:                                           \* deferred cancelSubs(): bus unsubscribe
       busSubs[ct] := busSubs[ct] \ {cs};
     };
 c_next:
     round := round + 1; cs := IF round <= Rounds THEN SubOf(self - 30, round) ELSE 0;
-    ct := 0; seen := FALSE; ok := FALSE; found := FALSE; polls := 0;
+    ct := 0; seen := FALSE; ok := FALSE; found := FALSE; polls := 0; fx := 0;
   }
 }
 
@@ -396,7 +420,7 @@ tl_sweep:                                           \* for id, f := range filter
         either {
           with (x \in {y \in filters : timer[y] = "fired" \/ (TraceMode /\ timer[y] = "running")}) {
             timer[x] := "drained";
-            unReq[x] := unReq[x] + 1;               \* f.s.Unsubscribe(api.events): go func() { es.uninstall <- s }
+            unReq[x] := unReq[x] + 1; unTotal[x] := unTotal[x] + 1;   \* f.s.Unsubscribe(api.events): go func() { es.uninstall <- s }
             if (subState[x] = "live") { subState[x] := "expired" };
             filters := filters \ {x};
           }
@@ -490,14 +514,17 @@ iq_loop:
 \* BEGIN TRANSLATION
 VARIABLES pc, crashed, busTopics, busSubs, topW, devUsed, subCh, idxR, idxW, 
           index, topicChans, chans, nextChan, installQ, uninstallQ, installed, 
-          errClosed, subTopic, subState, unReq, resp, emitted, fmu, filters, 
-          timer, coSpawned, ticks, fires, latestBlock, lastIndexed, hdr, 
-          newBlockSig, quitBuf, quit
+          errClosed, subTopic, subState, unTotal, unReq, resp, emitted, fmu, 
+          filters, timer, coSpawned, ticks, fires, latestBlock, lastIndexed, 
+          hdr, newBlockSig, quitBuf, quit
 
 (* define statement *)
 LiveSubs(t) == {s \in Subs : subState[s] = "live" /\ subTopic[s] = t}
 
 NoCrash == crashed = "no"
+
+
+NoDoubleUninstall == \A s \in Subs : unTotal[s] <= 1
 
 
 NoLostTopic == \A s \in Subs : subState[s] = "live" =>
@@ -515,15 +542,15 @@ IndexerInv == lastIndexed <= latestBlock
 NoDrainBlock == \A c \in CLs : pc[c] # "g_drain"
 
 VARIABLES f, ft, ech, addOk, inUse, cch, pch, ptOk, round, cs, ct, seen, ok, 
-          polls, found, me, h, lb, sent
+          polls, found, fx, me, h, lb, sent
 
 vars == << pc, crashed, busTopics, busSubs, topW, devUsed, subCh, idxR, idxW, 
            index, topicChans, chans, nextChan, installQ, uninstallQ, 
-           installed, errClosed, subTopic, subState, unReq, resp, emitted, 
-           fmu, filters, timer, coSpawned, ticks, fires, latestBlock, 
+           installed, errClosed, subTopic, subState, unTotal, unReq, resp, 
+           emitted, fmu, filters, timer, coSpawned, ticks, fires, latestBlock, 
            lastIndexed, hdr, newBlockSig, quitBuf, quit, f, ft, ech, addOk, 
-           inUse, cch, pch, ptOk, round, cs, ct, seen, ok, polls, found, me, 
-           h, lb, sent >>
+           inUse, cch, pch, ptOk, round, cs, ct, seen, ok, polls, found, fx, 
+           me, h, lb, sent >>
 
 ProcSet == {EL} \cup {CE} \cup (PTs) \cup (CLs) \cup (UNs) \cup (COs) \cup {TL} \cup {SRC} \cup {IH} \cup {IM} \cup {IQ}
 
@@ -546,6 +573,7 @@ Init == (* Global variables *)
         /\ errClosed = [s \in Subs |-> FALSE]
         /\ subTopic = [s \in Subs |-> 0]
         /\ subState = [s \in Subs |-> "new"]
+        /\ unTotal = [s \in Subs |-> 0]
         /\ unReq = [s \in Subs |-> 0]
         /\ resp = <<>>
         /\ emitted = 0
@@ -580,6 +608,7 @@ Init == (* Global variables *)
         /\ ok = [self \in CLs |-> FALSE]
         /\ polls = [self \in CLs |-> 0]
         /\ found = [self \in CLs |-> FALSE]
+        /\ fx = [self \in CLs |-> 0]
         (* Process consumer *)
         /\ me = [self \in COs |-> self - 40]
         (* Process idxHeader *)
@@ -635,11 +664,11 @@ el_wait == /\ pc[EL] = "el_wait"
                  /\ UNCHANGED installQ
            /\ UNCHANGED << crashed, busTopics, busSubs, topW, subCh, idxR, 
                            topicChans, chans, nextChan, installed, errClosed, 
-                           subTopic, subState, unReq, resp, emitted, fmu, 
-                           filters, timer, coSpawned, ticks, fires, 
+                           subTopic, subState, unTotal, unReq, resp, emitted, 
+                           fmu, filters, timer, coSpawned, ticks, fires, 
                            latestBlock, lastIndexed, hdr, newBlockSig, quitBuf, 
                            quit, addOk, cch, pch, ptOk, round, cs, ct, seen, 
-                           ok, polls, found, me, h, lb, sent >>
+                           ok, polls, found, fx, me, h, lb, sent >>
 
 el_i_addchk == /\ pc[EL] = "el_i_addchk"
                /\ ~topW
@@ -650,12 +679,12 @@ el_i_addchk == /\ pc[EL] = "el_i_addchk"
                /\ UNCHANGED << crashed, busTopics, busSubs, topW, devUsed, 
                                subCh, idxR, idxW, index, topicChans, chans, 
                                nextChan, installQ, uninstallQ, installed, 
-                               errClosed, subTopic, subState, unReq, resp, 
-                               emitted, fmu, filters, timer, coSpawned, ticks, 
-                               fires, latestBlock, lastIndexed, hdr, 
+                               errClosed, subTopic, subState, unTotal, unReq, 
+                               resp, emitted, fmu, filters, timer, coSpawned, 
+                               ticks, fires, latestBlock, lastIndexed, hdr, 
                                newBlockSig, quitBuf, quit, f, ft, ech, inUse, 
                                cch, pch, ptOk, round, cs, ct, seen, ok, polls, 
-                               found, me, h, lb, sent >>
+                               found, fx, me, h, lb, sent >>
 
 el_i_add == /\ pc[EL] = "el_i_add"
             /\ ~topW
@@ -666,12 +695,12 @@ el_i_add == /\ pc[EL] = "el_i_add"
             /\ pc' = [pc EXCEPT ![EL] = "el_i_unlock"]
             /\ UNCHANGED << crashed, busSubs, topW, devUsed, subCh, idxR, idxW, 
                             index, topicChans, installQ, uninstallQ, installed, 
-                            errClosed, subTopic, subState, unReq, resp, 
-                            emitted, fmu, filters, timer, coSpawned, ticks, 
-                            fires, latestBlock, lastIndexed, hdr, newBlockSig, 
-                            quitBuf, quit, f, ft, addOk, inUse, cch, pch, ptOk, 
-                            round, cs, ct, seen, ok, polls, found, me, h, lb, 
-                            sent >>
+                            errClosed, subTopic, subState, unTotal, unReq, 
+                            resp, emitted, fmu, filters, timer, coSpawned, 
+                            ticks, fires, latestBlock, lastIndexed, hdr, 
+                            newBlockSig, quitBuf, quit, f, ft, addOk, inUse, 
+                            cch, pch, ptOk, round, cs, ct, seen, ok, polls, 
+                            found, fx, me, h, lb, sent >>
 
 el_i_unlock == /\ pc[EL] = "el_i_unlock"
                /\ IF addOk
@@ -683,11 +712,12 @@ el_i_unlock == /\ pc[EL] = "el_i_unlock"
                /\ UNCHANGED << crashed, busTopics, busSubs, topW, devUsed, 
                                subCh, idxR, index, chans, nextChan, installQ, 
                                uninstallQ, installed, errClosed, subTopic, 
-                               subState, unReq, resp, emitted, fmu, filters, 
-                               timer, coSpawned, ticks, fires, latestBlock, 
-                               lastIndexed, hdr, newBlockSig, quitBuf, quit, f, 
-                               ft, ech, addOk, inUse, cch, pch, ptOk, round, 
-                               cs, ct, seen, ok, polls, found, me, h, lb, sent >>
+                               subState, unTotal, unReq, resp, emitted, fmu, 
+                               filters, timer, coSpawned, ticks, fires, 
+                               latestBlock, lastIndexed, hdr, newBlockSig, 
+                               quitBuf, quit, f, ft, ech, addOk, inUse, cch, 
+                               pch, ptOk, round, cs, ct, seen, ok, polls, 
+                               found, fx, me, h, lb, sent >>
 
 el_i_unlock0 == /\ pc[EL] = "el_i_unlock0"
                 /\ idxW' = FALSE
@@ -695,12 +725,12 @@ el_i_unlock0 == /\ pc[EL] = "el_i_unlock0"
                 /\ UNCHANGED << crashed, busTopics, busSubs, topW, devUsed, 
                                 subCh, idxR, index, topicChans, chans, 
                                 nextChan, installQ, uninstallQ, installed, 
-                                errClosed, subTopic, subState, unReq, resp, 
-                                emitted, fmu, filters, timer, coSpawned, ticks, 
-                                fires, latestBlock, lastIndexed, hdr, 
+                                errClosed, subTopic, subState, unTotal, unReq, 
+                                resp, emitted, fmu, filters, timer, coSpawned, 
+                                ticks, fires, latestBlock, lastIndexed, hdr, 
                                 newBlockSig, quitBuf, quit, f, ft, ech, addOk, 
                                 inUse, cch, pch, ptOk, round, cs, ct, seen, ok, 
-                                polls, found, me, h, lb, sent >>
+                                polls, found, fx, me, h, lb, sent >>
 
 el_i_done == /\ pc[EL] = "el_i_done"
              /\ installed' = [installed EXCEPT ![f] = TRUE]
@@ -712,11 +742,11 @@ el_i_done == /\ pc[EL] = "el_i_done"
              /\ UNCHANGED << crashed, busTopics, busSubs, topW, devUsed, subCh, 
                              idxR, idxW, index, topicChans, chans, nextChan, 
                              installQ, uninstallQ, errClosed, subTopic, 
-                             subState, unReq, resp, emitted, fmu, filters, 
-                             timer, coSpawned, ticks, fires, latestBlock, 
-                             lastIndexed, hdr, newBlockSig, quitBuf, quit, 
-                             inUse, cch, pch, ptOk, round, cs, ct, seen, ok, 
-                             polls, found, me, h, lb, sent >>
+                             subState, unTotal, unReq, resp, emitted, fmu, 
+                             filters, timer, coSpawned, ticks, fires, 
+                             latestBlock, lastIndexed, hdr, newBlockSig, 
+                             quitBuf, quit, inUse, cch, pch, ptOk, round, cs, 
+                             ct, seen, ok, polls, found, fx, me, h, lb, sent >>
 
 el_u_remove == /\ pc[EL] = "el_u_remove"
                /\ ~topW
@@ -725,12 +755,12 @@ el_u_remove == /\ pc[EL] = "el_u_remove"
                /\ UNCHANGED << crashed, busSubs, topW, devUsed, subCh, idxR, 
                                idxW, index, topicChans, chans, nextChan, 
                                installQ, uninstallQ, installed, errClosed, 
-                               subTopic, subState, unReq, resp, emitted, fmu, 
-                               filters, timer, coSpawned, ticks, fires, 
-                               latestBlock, lastIndexed, hdr, newBlockSig, 
-                               quitBuf, quit, f, ft, ech, addOk, inUse, cch, 
-                               pch, ptOk, round, cs, ct, seen, ok, polls, 
-                               found, me, h, lb, sent >>
+                               subTopic, subState, unTotal, unReq, resp, 
+                               emitted, fmu, filters, timer, coSpawned, ticks, 
+                               fires, latestBlock, lastIndexed, hdr, 
+                               newBlockSig, quitBuf, quit, f, ft, ech, addOk, 
+                               inUse, cch, pch, ptOk, round, cs, ct, seen, ok, 
+                               polls, found, fx, me, h, lb, sent >>
 
 el_u_close == /\ pc[EL] = "el_u_close"
               /\ IF chans[ech].closed
@@ -742,12 +772,12 @@ el_u_close == /\ pc[EL] = "el_u_close"
               /\ pc' = [pc EXCEPT ![EL] = "el_u_unlock"]
               /\ UNCHANGED << busTopics, busSubs, topW, devUsed, subCh, idxR, 
                               idxW, index, nextChan, installQ, uninstallQ, 
-                              installed, errClosed, subTopic, subState, unReq, 
-                              resp, emitted, fmu, filters, timer, coSpawned, 
-                              ticks, fires, latestBlock, lastIndexed, hdr, 
-                              newBlockSig, quitBuf, quit, f, ft, ech, addOk, 
-                              inUse, cch, pch, ptOk, round, cs, ct, seen, ok, 
-                              polls, found, me, h, lb, sent >>
+                              installed, errClosed, subTopic, subState, 
+                              unTotal, unReq, resp, emitted, fmu, filters, 
+                              timer, coSpawned, ticks, fires, latestBlock, 
+                              lastIndexed, hdr, newBlockSig, quitBuf, quit, f, 
+                              ft, ech, addOk, inUse, cch, pch, ptOk, round, cs, 
+                              ct, seen, ok, polls, found, fx, me, h, lb, sent >>
 
 el_u_unlock == /\ pc[EL] = "el_u_unlock"
                /\ idxW' = FALSE
@@ -755,12 +785,12 @@ el_u_unlock == /\ pc[EL] = "el_u_unlock"
                /\ UNCHANGED << crashed, busTopics, busSubs, topW, devUsed, 
                                subCh, idxR, index, topicChans, chans, nextChan, 
                                installQ, uninstallQ, installed, errClosed, 
-                               subTopic, subState, unReq, resp, emitted, fmu, 
-                               filters, timer, coSpawned, ticks, fires, 
-                               latestBlock, lastIndexed, hdr, newBlockSig, 
-                               quitBuf, quit, f, ft, ech, addOk, inUse, cch, 
-                               pch, ptOk, round, cs, ct, seen, ok, polls, 
-                               found, me, h, lb, sent >>
+                               subTopic, subState, unTotal, unReq, resp, 
+                               emitted, fmu, filters, timer, coSpawned, ticks, 
+                               fires, latestBlock, lastIndexed, hdr, 
+                               newBlockSig, quitBuf, quit, f, ft, ech, addOk, 
+                               inUse, cch, pch, ptOk, round, cs, ct, seen, ok, 
+                               polls, found, fx, me, h, lb, sent >>
 
 el_u_done == /\ pc[EL] = "el_u_done"
              /\ IF errClosed[f]
@@ -776,11 +806,11 @@ el_u_done == /\ pc[EL] = "el_u_done"
              /\ UNCHANGED << busTopics, busSubs, topW, devUsed, subCh, idxR, 
                              idxW, index, topicChans, chans, nextChan, 
                              installQ, uninstallQ, installed, subTopic, 
-                             subState, unReq, resp, emitted, fmu, filters, 
-                             timer, coSpawned, ticks, fires, latestBlock, 
-                             lastIndexed, hdr, newBlockSig, quitBuf, quit, 
-                             addOk, cch, pch, ptOk, round, cs, ct, seen, ok, 
-                             polls, found, me, h, lb, sent >>
+                             subState, unTotal, unReq, resp, emitted, fmu, 
+                             filters, timer, coSpawned, ticks, fires, 
+                             latestBlock, lastIndexed, hdr, newBlockSig, 
+                             quitBuf, quit, addOk, cch, pch, ptOk, round, cs, 
+                             ct, seen, ok, polls, found, fx, me, h, lb, sent >>
 
 eventLoop == el_wait \/ el_i_addchk \/ el_i_add \/ el_i_unlock
                 \/ el_i_unlock0 \/ el_i_done \/ el_u_remove \/ el_u_close
@@ -800,11 +830,12 @@ ce_lookup == /\ pc[CE] = "ce_lookup"
              /\ UNCHANGED << crashed, busTopics, busSubs, topW, devUsed, subCh, 
                              idxW, index, topicChans, chans, nextChan, 
                              installQ, uninstallQ, installed, errClosed, 
-                             subTopic, subState, unReq, emitted, fmu, filters, 
-                             timer, coSpawned, ticks, fires, latestBlock, 
-                             lastIndexed, hdr, newBlockSig, quitBuf, quit, f, 
-                             ft, ech, addOk, inUse, pch, ptOk, round, cs, ct, 
-                             seen, ok, polls, found, me, h, lb, sent >>
+                             subTopic, subState, unTotal, unReq, emitted, fmu, 
+                             filters, timer, coSpawned, ticks, fires, 
+                             latestBlock, lastIndexed, hdr, newBlockSig, 
+                             quitBuf, quit, f, ft, ech, addOk, inUse, pch, 
+                             ptOk, round, cs, ct, seen, ok, polls, found, fx, 
+                             me, h, lb, sent >>
 
 ce_send == /\ pc[CE] = "ce_send"
            /\ IF chans[cch].closed
@@ -816,11 +847,12 @@ ce_send == /\ pc[CE] = "ce_send"
            /\ UNCHANGED << busTopics, busSubs, topW, devUsed, subCh, idxR, 
                            idxW, index, topicChans, nextChan, installQ, 
                            uninstallQ, installed, errClosed, subTopic, 
-                           subState, unReq, resp, emitted, fmu, filters, timer, 
-                           coSpawned, ticks, fires, latestBlock, lastIndexed, 
-                           hdr, newBlockSig, quitBuf, quit, f, ft, ech, addOk, 
-                           inUse, cch, pch, ptOk, round, cs, ct, seen, ok, 
-                           polls, found, me, h, lb, sent >>
+                           subState, unTotal, unReq, resp, emitted, fmu, 
+                           filters, timer, coSpawned, ticks, fires, 
+                           latestBlock, lastIndexed, hdr, newBlockSig, quitBuf, 
+                           quit, f, ft, ech, addOk, inUse, cch, pch, ptOk, 
+                           round, cs, ct, seen, ok, polls, found, fx, me, h, 
+                           lb, sent >>
 
 ce_sent == /\ pc[CE] = "ce_sent"
            /\ \/ /\ chans[cch].offer = 2
@@ -843,12 +875,12 @@ ce_sent == /\ pc[CE] = "ce_sent"
            /\ pc' = [pc EXCEPT ![CE] = "ce_lookup"]
            /\ UNCHANGED << busTopics, busSubs, topW, devUsed, subCh, idxW, 
                            index, topicChans, nextChan, installQ, uninstallQ, 
-                           installed, errClosed, subTopic, subState, unReq, 
-                           resp, emitted, fmu, filters, timer, coSpawned, 
-                           ticks, fires, latestBlock, lastIndexed, hdr, 
-                           newBlockSig, quitBuf, quit, f, ft, ech, addOk, 
+                           installed, errClosed, subTopic, subState, unTotal, 
+                           unReq, resp, emitted, fmu, filters, timer, 
+                           coSpawned, ticks, fires, latestBlock, lastIndexed, 
+                           hdr, newBlockSig, quitBuf, quit, f, ft, ech, addOk, 
                            inUse, pch, ptOk, round, cs, ct, seen, ok, polls, 
-                           found, me, h, lb, sent >>
+                           found, fx, me, h, lb, sent >>
 
 consumeEvents == ce_lookup \/ ce_send \/ ce_sent
 
@@ -870,12 +902,12 @@ pt_loop(self) == /\ pc[self] = "pt_loop"
                  /\ UNCHANGED << crashed, busTopics, busSubs, topW, devUsed, 
                                  subCh, idxR, idxW, index, topicChans, 
                                  nextChan, installQ, uninstallQ, installed, 
-                                 errClosed, subTopic, subState, unReq, resp, 
-                                 emitted, fmu, filters, timer, coSpawned, 
+                                 errClosed, subTopic, subState, unTotal, unReq, 
+                                 resp, emitted, fmu, filters, timer, coSpawned, 
                                  ticks, fires, latestBlock, lastIndexed, hdr, 
                                  newBlockSig, quitBuf, quit, f, ft, ech, addOk, 
                                  inUse, cch, pch, round, cs, ct, seen, ok, 
-                                 polls, found, me, h, lb, sent >>
+                                 polls, found, fx, me, h, lb, sent >>
 
 pt_pub(self) == /\ pc[self] = "pt_pub"
                 /\ IF \E x \in busSubs[chans[pch[self]].topic] : subCh[x].closed
@@ -888,11 +920,12 @@ pt_pub(self) == /\ pc[self] = "pt_pub"
                 /\ UNCHANGED << busTopics, busSubs, topW, devUsed, idxR, idxW, 
                                 index, topicChans, chans, nextChan, installQ, 
                                 uninstallQ, installed, errClosed, subTopic, 
-                                subState, unReq, resp, emitted, fmu, filters, 
-                                timer, coSpawned, ticks, fires, latestBlock, 
-                                lastIndexed, hdr, newBlockSig, quitBuf, quit, 
-                                f, ft, ech, addOk, inUse, cch, pch, round, cs, 
-                                ct, seen, ok, polls, found, me, h, lb, sent >>
+                                subState, unTotal, unReq, resp, emitted, fmu, 
+                                filters, timer, coSpawned, ticks, fires, 
+                                latestBlock, lastIndexed, hdr, newBlockSig, 
+                                quitBuf, quit, f, ft, ech, addOk, inUse, cch, 
+                                pch, round, cs, ct, seen, ok, polls, found, fx, 
+                                me, h, lb, sent >>
 
 pt_closeall(self) == /\ pc[self] = "pt_closeall"
                      /\ IF busTopics[chans[pch[self]].topic] # 0 /\ busTopics[chans[pch[self]].topic] # pch[self] /\ busSubs[chans[pch[self]].topic] # {}
@@ -909,13 +942,13 @@ pt_closeall(self) == /\ pc[self] = "pt_closeall"
                      /\ UNCHANGED << busTopics, topW, idxR, idxW, index, 
                                      topicChans, chans, nextChan, installQ, 
                                      uninstallQ, installed, errClosed, 
-                                     subTopic, subState, unReq, resp, emitted, 
-                                     fmu, filters, timer, coSpawned, ticks, 
-                                     fires, latestBlock, lastIndexed, hdr, 
-                                     newBlockSig, quitBuf, quit, f, ft, ech, 
-                                     addOk, inUse, cch, pch, ptOk, round, cs, 
-                                     ct, seen, ok, polls, found, me, h, lb, 
-                                     sent >>
+                                     subTopic, subState, unTotal, unReq, resp, 
+                                     emitted, fmu, filters, timer, coSpawned, 
+                                     ticks, fires, latestBlock, lastIndexed, 
+                                     hdr, newBlockSig, quitBuf, quit, f, ft, 
+                                     ech, addOk, inUse, cch, pch, ptOk, round, 
+                                     cs, ct, seen, ok, polls, found, fx, me, h, 
+                                     lb, sent >>
 
 pt_del(self) == /\ pc[self] = "pt_del"
                 /\ topW \/ "D12" \in Known
@@ -929,12 +962,12 @@ pt_del(self) == /\ pc[self] = "pt_del"
                 /\ UNCHANGED << crashed, busSubs, subCh, idxR, idxW, index, 
                                 topicChans, chans, nextChan, installQ, 
                                 uninstallQ, installed, errClosed, subTopic, 
-                                subState, unReq, resp, emitted, fmu, filters, 
-                                timer, coSpawned, ticks, fires, latestBlock, 
-                                lastIndexed, hdr, newBlockSig, quitBuf, quit, 
-                                f, ft, ech, addOk, inUse, cch, pch, ptOk, 
-                                round, cs, ct, seen, ok, polls, found, me, h, 
-                                lb, sent >>
+                                subState, unTotal, unReq, resp, emitted, fmu, 
+                                filters, timer, coSpawned, ticks, fires, 
+                                latestBlock, lastIndexed, hdr, newBlockSig, 
+                                quitBuf, quit, f, ft, ech, addOk, inUse, cch, 
+                                pch, ptOk, round, cs, ct, seen, ok, polls, 
+                                found, fx, me, h, lb, sent >>
 
 pt_chk(self) == /\ pc[self] = "pt_chk"
                 /\ ~topW
@@ -946,12 +979,12 @@ pt_chk(self) == /\ pc[self] = "pt_chk"
                 /\ UNCHANGED << crashed, busTopics, busSubs, devUsed, subCh, 
                                 idxR, idxW, index, topicChans, chans, nextChan, 
                                 installQ, uninstallQ, installed, errClosed, 
-                                subTopic, subState, unReq, resp, emitted, fmu, 
-                                filters, timer, coSpawned, ticks, fires, 
-                                latestBlock, lastIndexed, hdr, newBlockSig, 
-                                quitBuf, quit, f, ft, ech, addOk, inUse, cch, 
-                                pch, ptOk, round, cs, ct, seen, ok, polls, 
-                                found, me, h, lb, sent >>
+                                subTopic, subState, unTotal, unReq, resp, 
+                                emitted, fmu, filters, timer, coSpawned, ticks, 
+                                fires, latestBlock, lastIndexed, hdr, 
+                                newBlockSig, quitBuf, quit, f, ft, ech, addOk, 
+                                inUse, cch, pch, ptOk, round, cs, ct, seen, ok, 
+                                polls, found, fx, me, h, lb, sent >>
 
 pt_done(self) == /\ pc[self] = "pt_done"
                  /\ TRUE
@@ -959,12 +992,12 @@ pt_done(self) == /\ pc[self] = "pt_done"
                  /\ UNCHANGED << crashed, busTopics, busSubs, topW, devUsed, 
                                  subCh, idxR, idxW, index, topicChans, chans, 
                                  nextChan, installQ, uninstallQ, installed, 
-                                 errClosed, subTopic, subState, unReq, resp, 
-                                 emitted, fmu, filters, timer, coSpawned, 
+                                 errClosed, subTopic, subState, unTotal, unReq, 
+                                 resp, emitted, fmu, filters, timer, coSpawned, 
                                  ticks, fires, latestBlock, lastIndexed, hdr, 
                                  newBlockSig, quitBuf, quit, f, ft, ech, addOk, 
                                  inUse, cch, pch, ptOk, round, cs, ct, seen, 
-                                 ok, polls, found, me, h, lb, sent >>
+                                 ok, polls, found, fx, me, h, lb, sent >>
 
 publishTopic(self) == pt_loop(self) \/ pt_pub(self) \/ pt_closeall(self)
                          \/ pt_del(self) \/ pt_chk(self) \/ pt_done(self)
@@ -978,12 +1011,12 @@ c_begin(self) == /\ pc[self] = "c_begin"
                  /\ UNCHANGED << crashed, busTopics, busSubs, topW, devUsed, 
                                  subCh, idxR, idxW, index, topicChans, chans, 
                                  nextChan, installQ, uninstallQ, installed, 
-                                 errClosed, subTopic, subState, unReq, resp, 
-                                 emitted, fmu, filters, timer, coSpawned, 
+                                 errClosed, subTopic, subState, unTotal, unReq, 
+                                 resp, emitted, fmu, filters, timer, coSpawned, 
                                  ticks, fires, latestBlock, lastIndexed, hdr, 
                                  newBlockSig, quitBuf, quit, f, ft, ech, addOk, 
                                  inUse, cch, pch, ptOk, round, cs, ct, seen, 
-                                 ok, polls, found, me, h, lb, sent >>
+                                 ok, polls, found, fx, me, h, lb, sent >>
 
 c_topics(self) == /\ pc[self] = "c_topics"
                   /\ ~topW
@@ -1004,11 +1037,12 @@ c_topics(self) == /\ pc[self] = "c_topics"
                   /\ UNCHANGED << crashed, busTopics, busSubs, topW, subCh, 
                                   idxR, idxW, index, topicChans, chans, 
                                   nextChan, uninstallQ, installed, errClosed, 
-                                  subState, unReq, resp, emitted, fmu, filters, 
-                                  timer, coSpawned, ticks, fires, latestBlock, 
-                                  lastIndexed, hdr, newBlockSig, quitBuf, quit, 
-                                  f, ft, ech, addOk, inUse, cch, pch, ptOk, 
-                                  round, cs, ok, polls, found, me, h, lb, sent >>
+                                  subState, unTotal, unReq, resp, emitted, fmu, 
+                                  filters, timer, coSpawned, ticks, fires, 
+                                  latestBlock, lastIndexed, hdr, newBlockSig, 
+                                  quitBuf, quit, f, ft, ech, addOk, inUse, cch, 
+                                  pch, ptOk, round, cs, ok, polls, found, fx, 
+                                  me, h, lb, sent >>
 
 c_inst(self) == /\ pc[self] = "c_inst"
                 /\ installQ' = (installQ \cup {cs[self]})
@@ -1016,12 +1050,12 @@ c_inst(self) == /\ pc[self] = "c_inst"
                 /\ UNCHANGED << crashed, busTopics, busSubs, topW, devUsed, 
                                 subCh, idxR, idxW, index, topicChans, chans, 
                                 nextChan, uninstallQ, installed, errClosed, 
-                                subTopic, subState, unReq, resp, emitted, fmu, 
-                                filters, timer, coSpawned, ticks, fires, 
-                                latestBlock, lastIndexed, hdr, newBlockSig, 
-                                quitBuf, quit, f, ft, ech, addOk, inUse, cch, 
-                                pch, ptOk, round, cs, ct, seen, ok, polls, 
-                                found, me, h, lb, sent >>
+                                subTopic, subState, unTotal, unReq, resp, 
+                                emitted, fmu, filters, timer, coSpawned, ticks, 
+                                fires, latestBlock, lastIndexed, hdr, 
+                                newBlockSig, quitBuf, quit, f, ft, ech, addOk, 
+                                inUse, cch, pch, ptOk, round, cs, ct, seen, ok, 
+                                polls, found, fx, me, h, lb, sent >>
 
 c_bsub1(self) == /\ pc[self] = "c_bsub1"
                  /\ (seen[self] \/ installed[cs[self]]) /\ ~topW
@@ -1036,12 +1070,12 @@ c_bsub1(self) == /\ pc[self] = "c_bsub1"
                  /\ UNCHANGED << crashed, busTopics, busSubs, topW, devUsed, 
                                  subCh, idxR, idxW, index, topicChans, chans, 
                                  nextChan, installQ, uninstallQ, installed, 
-                                 errClosed, subTopic, unReq, resp, emitted, 
-                                 fmu, filters, timer, coSpawned, ticks, fires, 
-                                 latestBlock, lastIndexed, hdr, newBlockSig, 
-                                 quitBuf, quit, f, ft, ech, addOk, inUse, cch, 
-                                 pch, ptOk, round, cs, ct, seen, polls, found, 
-                                 me, h, lb, sent >>
+                                 errClosed, subTopic, unTotal, unReq, resp, 
+                                 emitted, fmu, filters, timer, coSpawned, 
+                                 ticks, fires, latestBlock, lastIndexed, hdr, 
+                                 newBlockSig, quitBuf, quit, f, ft, ech, addOk, 
+                                 inUse, cch, pch, ptOk, round, cs, ct, seen, 
+                                 polls, found, fx, me, h, lb, sent >>
 
 c_bsub2(self) == /\ pc[self] = "c_bsub2"
                  /\ busSubs' = [busSubs EXCEPT ![ct[self]] = busSubs[ct[self]] \cup {cs[self]}]
@@ -1055,12 +1089,12 @@ c_bsub2(self) == /\ pc[self] = "c_bsub2"
                  /\ UNCHANGED << crashed, busTopics, topW, devUsed, subCh, 
                                  idxR, idxW, index, topicChans, chans, 
                                  nextChan, installQ, uninstallQ, installed, 
-                                 errClosed, subTopic, unReq, resp, emitted, 
-                                 fmu, filters, timer, coSpawned, ticks, fires, 
-                                 latestBlock, lastIndexed, hdr, newBlockSig, 
-                                 quitBuf, quit, f, ft, ech, addOk, inUse, cch, 
-                                 pch, ptOk, round, cs, ct, seen, ok, polls, 
-                                 found, me, h, lb, sent >>
+                                 errClosed, subTopic, unTotal, unReq, resp, 
+                                 emitted, fmu, filters, timer, coSpawned, 
+                                 ticks, fires, latestBlock, lastIndexed, hdr, 
+                                 newBlockSig, quitBuf, quit, f, ft, ech, addOk, 
+                                 inUse, cch, pch, ptOk, round, cs, ct, seen, 
+                                 ok, polls, found, fx, me, h, lb, sent >>
 
 c_fadd(self) == /\ pc[self] = "c_fadd"
                 /\ filters' = (filters \cup {cs[self]})
@@ -1071,11 +1105,12 @@ c_fadd(self) == /\ pc[self] = "c_fadd"
                 /\ UNCHANGED << crashed, busTopics, busSubs, topW, devUsed, 
                                 subCh, idxR, idxW, index, topicChans, chans, 
                                 nextChan, installQ, uninstallQ, installed, 
-                                errClosed, subTopic, unReq, resp, emitted, fmu, 
-                                ticks, fires, latestBlock, lastIndexed, hdr, 
-                                newBlockSig, quitBuf, quit, f, ft, ech, addOk, 
-                                inUse, cch, pch, ptOk, round, cs, ct, seen, ok, 
-                                polls, found, me, h, lb, sent >>
+                                errClosed, subTopic, unTotal, unReq, resp, 
+                                emitted, fmu, ticks, fires, latestBlock, 
+                                lastIndexed, hdr, newBlockSig, quitBuf, quit, 
+                                f, ft, ech, addOk, inUse, cch, pch, ptOk, 
+                                round, cs, ct, seen, ok, polls, found, fx, me, 
+                                h, lb, sent >>
 
 c_funlock(self) == /\ pc[self] = "c_funlock"
                    /\ fmu' = 0
@@ -1085,12 +1120,13 @@ c_funlock(self) == /\ pc[self] = "c_funlock"
                    /\ UNCHANGED << crashed, busTopics, busSubs, topW, devUsed, 
                                    subCh, idxR, idxW, index, topicChans, chans, 
                                    nextChan, installQ, uninstallQ, installed, 
-                                   errClosed, subTopic, subState, unReq, resp, 
-                                   emitted, filters, timer, coSpawned, ticks, 
-                                   fires, latestBlock, lastIndexed, hdr, 
-                                   newBlockSig, quitBuf, quit, f, ft, ech, 
-                                   addOk, inUse, cch, pch, ptOk, round, cs, ct, 
-                                   seen, ok, polls, found, me, h, lb, sent >>
+                                   errClosed, subTopic, subState, unTotal, 
+                                   unReq, resp, emitted, filters, timer, 
+                                   coSpawned, ticks, fires, latestBlock, 
+                                   lastIndexed, hdr, newBlockSig, quitBuf, 
+                                   quit, f, ft, ech, addOk, inUse, cch, pch, 
+                                   ptOk, round, cs, ct, seen, ok, polls, found, 
+                                   fx, me, h, lb, sent >>
 
 c_use(self) == /\ pc[self] = "c_use"
                /\ \/ /\ polls[self] < MaxPolls
@@ -1098,17 +1134,20 @@ c_use(self) == /\ pc[self] = "c_use"
                      /\ pc' = [pc EXCEPT ![self] = "g_lock"]
                   \/ /\ pc' = [pc EXCEPT ![self] = "u_lock"]
                      /\ polls' = polls
+                  \/ /\ Foreign /\ polls[self] < MaxPolls /\ (coSpawned \ {cs[self]}) # {}
+                     /\ polls' = [polls EXCEPT ![self] = polls[self] + 1]
+                     /\ pc' = [pc EXCEPT ![self] = "xu_lock"]
                   \/ /\ pc' = [pc EXCEPT ![self] = "c_next"]
                      /\ polls' = polls
                /\ UNCHANGED << crashed, busTopics, busSubs, topW, devUsed, 
                                subCh, idxR, idxW, index, topicChans, chans, 
                                nextChan, installQ, uninstallQ, installed, 
-                               errClosed, subTopic, subState, unReq, resp, 
-                               emitted, fmu, filters, timer, coSpawned, ticks, 
-                               fires, latestBlock, lastIndexed, hdr, 
+                               errClosed, subTopic, subState, unTotal, unReq, 
+                               resp, emitted, fmu, filters, timer, coSpawned, 
+                               ticks, fires, latestBlock, lastIndexed, hdr, 
                                newBlockSig, quitBuf, quit, f, ft, ech, addOk, 
                                inUse, cch, pch, ptOk, round, cs, ct, seen, ok, 
-                               found, me, h, lb, sent >>
+                               found, fx, me, h, lb, sent >>
 
 g_lock(self) == /\ pc[self] = "g_lock"
                 /\ fmu = 0
@@ -1125,12 +1164,12 @@ g_lock(self) == /\ pc[self] = "g_lock"
                 /\ UNCHANGED << crashed, busTopics, busSubs, topW, devUsed, 
                                 subCh, idxR, idxW, index, topicChans, chans, 
                                 nextChan, installQ, uninstallQ, installed, 
-                                errClosed, subTopic, subState, unReq, resp, 
-                                emitted, filters, coSpawned, ticks, fires, 
-                                latestBlock, lastIndexed, hdr, newBlockSig, 
-                                quitBuf, quit, f, ft, ech, addOk, inUse, cch, 
-                                pch, ptOk, round, cs, ct, seen, ok, polls, me, 
-                                h, lb, sent >>
+                                errClosed, subTopic, subState, unTotal, unReq, 
+                                resp, emitted, filters, coSpawned, ticks, 
+                                fires, latestBlock, lastIndexed, hdr, 
+                                newBlockSig, quitBuf, quit, f, ft, ech, addOk, 
+                                inUse, cch, pch, ptOk, round, cs, ct, seen, ok, 
+                                polls, fx, me, h, lb, sent >>
 
 g_drain(self) == /\ pc[self] = "g_drain"
                  /\ FALSE
@@ -1138,12 +1177,12 @@ g_drain(self) == /\ pc[self] = "g_drain"
                  /\ UNCHANGED << crashed, busTopics, busSubs, topW, devUsed, 
                                  subCh, idxR, idxW, index, topicChans, chans, 
                                  nextChan, installQ, uninstallQ, installed, 
-                                 errClosed, subTopic, subState, unReq, resp, 
-                                 emitted, fmu, filters, timer, coSpawned, 
+                                 errClosed, subTopic, subState, unTotal, unReq, 
+                                 resp, emitted, fmu, filters, timer, coSpawned, 
                                  ticks, fires, latestBlock, lastIndexed, hdr, 
                                  newBlockSig, quitBuf, quit, f, ft, ech, addOk, 
                                  inUse, cch, pch, ptOk, round, cs, ct, seen, 
-                                 ok, polls, found, me, h, lb, sent >>
+                                 ok, polls, found, fx, me, h, lb, sent >>
 
 g_unlock(self) == /\ pc[self] = "g_unlock"
                   /\ fmu' = 0
@@ -1151,26 +1190,31 @@ g_unlock(self) == /\ pc[self] = "g_unlock"
                   /\ UNCHANGED << crashed, busTopics, busSubs, topW, devUsed, 
                                   subCh, idxR, idxW, index, topicChans, chans, 
                                   nextChan, installQ, uninstallQ, installed, 
-                                  errClosed, subTopic, subState, unReq, resp, 
-                                  emitted, filters, timer, coSpawned, ticks, 
-                                  fires, latestBlock, lastIndexed, hdr, 
-                                  newBlockSig, quitBuf, quit, f, ft, ech, 
-                                  addOk, inUse, cch, pch, ptOk, round, cs, ct, 
-                                  seen, ok, polls, found, me, h, lb, sent >>
+                                  errClosed, subTopic, subState, unTotal, 
+                                  unReq, resp, emitted, filters, timer, 
+                                  coSpawned, ticks, fires, latestBlock, 
+                                  lastIndexed, hdr, newBlockSig, quitBuf, quit, 
+                                  f, ft, ech, addOk, inUse, cch, pch, ptOk, 
+                                  round, cs, ct, seen, ok, polls, found, fx, 
+                                  me, h, lb, sent >>
 
 u_lock(self) == /\ pc[self] = "u_lock"
                 /\ fmu = 0
                 /\ found' = [found EXCEPT ![self] = cs[self] \in filters]
-                /\ filters' = filters \ {cs[self]}
                 /\ IF subState[cs[self]] = "live"
                       THEN /\ subState' = [subState EXCEPT ![cs[self]] = "unsub"]
                       ELSE /\ TRUE
                            /\ UNCHANGED subState
                 /\ IF found'[self]
                       THEN /\ unReq' = [unReq EXCEPT ![cs[self]] = unReq[cs[self]] + 1]
+                           /\ unTotal' = [unTotal EXCEPT ![cs[self]] = unTotal[cs[self]] + 1]
                       ELSE /\ TRUE
-                           /\ unReq' = unReq
-                /\ pc' = [pc EXCEPT ![self] = "c_next"]
+                           /\ UNCHANGED << unTotal, unReq >>
+                /\ IF ~("SplitUninstall" \in Known /\ found'[self])
+                      THEN /\ filters' = filters \ {cs[self]}
+                           /\ pc' = [pc EXCEPT ![self] = "c_next"]
+                      ELSE /\ pc' = [pc EXCEPT ![self] = "u_del"]
+                           /\ UNCHANGED filters
                 /\ UNCHANGED << crashed, busTopics, busSubs, topW, devUsed, 
                                 subCh, idxR, idxW, index, topicChans, chans, 
                                 nextChan, installQ, uninstallQ, installed, 
@@ -1178,8 +1222,65 @@ u_lock(self) == /\ pc[self] = "u_lock"
                                 coSpawned, ticks, fires, latestBlock, 
                                 lastIndexed, hdr, newBlockSig, quitBuf, quit, 
                                 f, ft, ech, addOk, inUse, cch, pch, ptOk, 
-                                round, cs, ct, seen, ok, polls, me, h, lb, 
+                                round, cs, ct, seen, ok, polls, fx, me, h, lb, 
                                 sent >>
+
+u_del(self) == /\ pc[self] = "u_del"
+               /\ fmu = 0
+               /\ filters' = filters \ {cs[self]}
+               /\ pc' = [pc EXCEPT ![self] = "c_next"]
+               /\ UNCHANGED << crashed, busTopics, busSubs, topW, devUsed, 
+                               subCh, idxR, idxW, index, topicChans, chans, 
+                               nextChan, installQ, uninstallQ, installed, 
+                               errClosed, subTopic, subState, unTotal, unReq, 
+                               resp, emitted, fmu, timer, coSpawned, ticks, 
+                               fires, latestBlock, lastIndexed, hdr, 
+                               newBlockSig, quitBuf, quit, f, ft, ech, addOk, 
+                               inUse, cch, pch, ptOk, round, cs, ct, seen, ok, 
+                               polls, found, fx, me, h, lb, sent >>
+
+xu_lock(self) == /\ pc[self] = "xu_lock"
+                 /\ fmu = 0
+                 /\ \E x \in coSpawned \ {cs[self]}:
+                      fx' = [fx EXCEPT ![self] = x]
+                 /\ found' = [found EXCEPT ![self] = fx'[self] \in filters]
+                 /\ IF found'[self]
+                       THEN /\ unReq' = [unReq EXCEPT ![fx'[self]] = unReq[fx'[self]] + 1]
+                            /\ unTotal' = [unTotal EXCEPT ![fx'[self]] = unTotal[fx'[self]] + 1]
+                            /\ IF subState[fx'[self]] = "live"
+                                  THEN /\ subState' = [subState EXCEPT ![fx'[self]] = "unsub"]
+                                  ELSE /\ TRUE
+                                       /\ UNCHANGED subState
+                       ELSE /\ TRUE
+                            /\ UNCHANGED << subState, unTotal, unReq >>
+                 /\ IF ~("SplitUninstall" \in Known /\ found'[self])
+                       THEN /\ filters' = filters \ {fx'[self]}
+                            /\ pc' = [pc EXCEPT ![self] = "c_use"]
+                       ELSE /\ pc' = [pc EXCEPT ![self] = "xu_del"]
+                            /\ UNCHANGED filters
+                 /\ UNCHANGED << crashed, busTopics, busSubs, topW, devUsed, 
+                                 subCh, idxR, idxW, index, topicChans, chans, 
+                                 nextChan, installQ, uninstallQ, installed, 
+                                 errClosed, subTopic, resp, emitted, fmu, 
+                                 timer, coSpawned, ticks, fires, latestBlock, 
+                                 lastIndexed, hdr, newBlockSig, quitBuf, quit, 
+                                 f, ft, ech, addOk, inUse, cch, pch, ptOk, 
+                                 round, cs, ct, seen, ok, polls, me, h, lb, 
+                                 sent >>
+
+xu_del(self) == /\ pc[self] = "xu_del"
+                /\ fmu = 0
+                /\ filters' = filters \ {fx[self]}
+                /\ pc' = [pc EXCEPT ![self] = "c_use"]
+                /\ UNCHANGED << crashed, busTopics, busSubs, topW, devUsed, 
+                                subCh, idxR, idxW, index, topicChans, chans, 
+                                nextChan, installQ, uninstallQ, installed, 
+                                errClosed, subTopic, subState, unTotal, unReq, 
+                                resp, emitted, fmu, timer, coSpawned, ticks, 
+                                fires, latestBlock, lastIndexed, hdr, 
+                                newBlockSig, quitBuf, quit, f, ft, ech, addOk, 
+                                inUse, cch, pch, ptOk, round, cs, ct, seen, ok, 
+                                polls, found, fx, me, h, lb, sent >>
 
 c_recv(self) == /\ pc[self] = "c_recv"
                 /\ \/ /\ subCh[cs[self]].buf > 0
@@ -1194,16 +1295,17 @@ c_recv(self) == /\ pc[self] = "c_recv"
                 /\ UNCHANGED << crashed, busTopics, busSubs, topW, devUsed, 
                                 idxR, idxW, index, topicChans, chans, nextChan, 
                                 installQ, uninstallQ, installed, errClosed, 
-                                subTopic, subState, unReq, resp, emitted, fmu, 
-                                filters, timer, coSpawned, ticks, fires, 
-                                latestBlock, lastIndexed, hdr, newBlockSig, 
-                                quitBuf, quit, f, ft, ech, addOk, inUse, cch, 
-                                pch, ptOk, round, cs, ct, seen, ok, polls, 
-                                found, me, h, lb, sent >>
+                                subTopic, subState, unTotal, unReq, resp, 
+                                emitted, fmu, filters, timer, coSpawned, ticks, 
+                                fires, latestBlock, lastIndexed, hdr, 
+                                newBlockSig, quitBuf, quit, f, ft, ech, addOk, 
+                                inUse, cch, pch, ptOk, round, cs, ct, seen, ok, 
+                                polls, found, fx, me, h, lb, sent >>
 
 c_unsub(self) == /\ pc[self] = "c_unsub"
                  /\ subState' = [subState EXCEPT ![cs[self]] = "unsub"]
                  /\ unReq' = [unReq EXCEPT ![cs[self]] = unReq[cs[self]] + 1]
+                 /\ unTotal' = [unTotal EXCEPT ![cs[self]] = unTotal[cs[self]] + 1]
                  /\ pc' = [pc EXCEPT ![self] = "c_cancel"]
                  /\ UNCHANGED << crashed, busTopics, busSubs, topW, devUsed, 
                                  subCh, idxR, idxW, index, topicChans, chans, 
@@ -1213,7 +1315,7 @@ c_unsub(self) == /\ pc[self] = "c_unsub"
                                  latestBlock, lastIndexed, hdr, newBlockSig, 
                                  quitBuf, quit, f, ft, ech, addOk, inUse, cch, 
                                  pch, ptOk, round, cs, ct, seen, ok, polls, 
-                                 found, me, h, lb, sent >>
+                                 found, fx, me, h, lb, sent >>
 
 c_cancel(self) == /\ pc[self] = "c_cancel"
                   /\ busSubs' = [busSubs EXCEPT ![ct[self]] = busSubs[ct[self]] \ {cs[self]}]
@@ -1221,12 +1323,13 @@ c_cancel(self) == /\ pc[self] = "c_cancel"
                   /\ UNCHANGED << crashed, busTopics, topW, devUsed, subCh, 
                                   idxR, idxW, index, topicChans, chans, 
                                   nextChan, installQ, uninstallQ, installed, 
-                                  errClosed, subTopic, subState, unReq, resp, 
-                                  emitted, fmu, filters, timer, coSpawned, 
-                                  ticks, fires, latestBlock, lastIndexed, hdr, 
-                                  newBlockSig, quitBuf, quit, f, ft, ech, 
-                                  addOk, inUse, cch, pch, ptOk, round, cs, ct, 
-                                  seen, ok, polls, found, me, h, lb, sent >>
+                                  errClosed, subTopic, subState, unTotal, 
+                                  unReq, resp, emitted, fmu, filters, timer, 
+                                  coSpawned, ticks, fires, latestBlock, 
+                                  lastIndexed, hdr, newBlockSig, quitBuf, quit, 
+                                  f, ft, ech, addOk, inUse, cch, pch, ptOk, 
+                                  round, cs, ct, seen, ok, polls, found, fx, 
+                                  me, h, lb, sent >>
 
 c_next(self) == /\ pc[self] = "c_next"
                 /\ round' = [round EXCEPT ![self] = round[self] + 1]
@@ -1236,13 +1339,14 @@ c_next(self) == /\ pc[self] = "c_next"
                 /\ ok' = [ok EXCEPT ![self] = FALSE]
                 /\ found' = [found EXCEPT ![self] = FALSE]
                 /\ polls' = [polls EXCEPT ![self] = 0]
+                /\ fx' = [fx EXCEPT ![self] = 0]
                 /\ pc' = [pc EXCEPT ![self] = "c_begin"]
                 /\ UNCHANGED << crashed, busTopics, busSubs, topW, devUsed, 
                                 subCh, idxR, idxW, index, topicChans, chans, 
                                 nextChan, installQ, uninstallQ, installed, 
-                                errClosed, subTopic, subState, unReq, resp, 
-                                emitted, fmu, filters, timer, coSpawned, ticks, 
-                                fires, latestBlock, lastIndexed, hdr, 
+                                errClosed, subTopic, subState, unTotal, unReq, 
+                                resp, emitted, fmu, filters, timer, coSpawned, 
+                                ticks, fires, latestBlock, lastIndexed, hdr, 
                                 newBlockSig, quitBuf, quit, f, ft, ech, addOk, 
                                 inUse, cch, pch, ptOk, me, h, lb, sent >>
 
@@ -1253,17 +1357,18 @@ c_flock(self) == /\ pc[self] = "c_flock"
                  /\ UNCHANGED << crashed, busTopics, busSubs, topW, devUsed, 
                                  subCh, idxR, idxW, index, topicChans, chans, 
                                  nextChan, installQ, uninstallQ, installed, 
-                                 errClosed, subTopic, subState, unReq, resp, 
-                                 emitted, filters, timer, coSpawned, ticks, 
-                                 fires, latestBlock, lastIndexed, hdr, 
+                                 errClosed, subTopic, subState, unTotal, unReq, 
+                                 resp, emitted, filters, timer, coSpawned, 
+                                 ticks, fires, latestBlock, lastIndexed, hdr, 
                                  newBlockSig, quitBuf, quit, f, ft, ech, addOk, 
                                  inUse, cch, pch, ptOk, round, cs, ct, seen, 
-                                 ok, polls, found, me, h, lb, sent >>
+                                 ok, polls, found, fx, me, h, lb, sent >>
 
 client(self) == c_begin(self) \/ c_topics(self) \/ c_inst(self)
                    \/ c_bsub1(self) \/ c_bsub2(self) \/ c_fadd(self)
                    \/ c_funlock(self) \/ c_use(self) \/ g_lock(self)
                    \/ g_drain(self) \/ g_unlock(self) \/ u_lock(self)
+                   \/ u_del(self) \/ xu_lock(self) \/ xu_del(self)
                    \/ c_recv(self) \/ c_unsub(self) \/ c_cancel(self)
                    \/ c_next(self) \/ c_flock(self)
 
@@ -1275,12 +1380,12 @@ un_send(self) == /\ pc[self] = "un_send"
                  /\ UNCHANGED << crashed, busTopics, busSubs, topW, devUsed, 
                                  subCh, idxR, idxW, index, topicChans, chans, 
                                  nextChan, installQ, installed, errClosed, 
-                                 subTopic, subState, resp, emitted, fmu, 
-                                 filters, timer, coSpawned, ticks, fires, 
+                                 subTopic, subState, unTotal, resp, emitted, 
+                                 fmu, filters, timer, coSpawned, ticks, fires, 
                                  latestBlock, lastIndexed, hdr, newBlockSig, 
                                  quitBuf, quit, f, ft, ech, addOk, inUse, cch, 
                                  pch, ptOk, round, cs, ct, seen, ok, polls, 
-                                 found, me, h, lb, sent >>
+                                 found, fx, me, h, lb, sent >>
 
 unsub(self) == un_send(self)
 
@@ -1299,12 +1404,12 @@ co_sel(self) == /\ pc[self] = "co_sel"
                 /\ UNCHANGED << crashed, busTopics, busSubs, topW, devUsed, 
                                 idxR, idxW, index, topicChans, chans, nextChan, 
                                 installQ, uninstallQ, installed, errClosed, 
-                                subTopic, subState, unReq, resp, emitted, fmu, 
-                                filters, timer, coSpawned, ticks, fires, 
-                                latestBlock, lastIndexed, hdr, newBlockSig, 
-                                quitBuf, quit, f, ft, ech, addOk, inUse, cch, 
-                                pch, ptOk, round, cs, ct, seen, ok, polls, 
-                                found, me, h, lb, sent >>
+                                subTopic, subState, unTotal, unReq, resp, 
+                                emitted, fmu, filters, timer, coSpawned, ticks, 
+                                fires, latestBlock, lastIndexed, hdr, 
+                                newBlockSig, quitBuf, quit, f, ft, ech, addOk, 
+                                inUse, cch, pch, ptOk, round, cs, ct, seen, ok, 
+                                polls, found, fx, me, h, lb, sent >>
 
 co_ev(self) == /\ pc[self] = "co_ev"
                /\ fmu = 0
@@ -1312,12 +1417,12 @@ co_ev(self) == /\ pc[self] = "co_ev"
                /\ UNCHANGED << crashed, busTopics, busSubs, topW, devUsed, 
                                subCh, idxR, idxW, index, topicChans, chans, 
                                nextChan, installQ, uninstallQ, installed, 
-                               errClosed, subTopic, subState, unReq, resp, 
-                               emitted, fmu, filters, timer, coSpawned, ticks, 
-                               fires, latestBlock, lastIndexed, hdr, 
+                               errClosed, subTopic, subState, unTotal, unReq, 
+                               resp, emitted, fmu, filters, timer, coSpawned, 
+                               ticks, fires, latestBlock, lastIndexed, hdr, 
                                newBlockSig, quitBuf, quit, f, ft, ech, addOk, 
                                inUse, cch, pch, ptOk, round, cs, ct, seen, ok, 
-                               polls, found, me, h, lb, sent >>
+                               polls, found, fx, me, h, lb, sent >>
 
 co_closed(self) == /\ pc[self] = "co_closed"
                    /\ fmu = 0
@@ -1326,12 +1431,12 @@ co_closed(self) == /\ pc[self] = "co_closed"
                    /\ UNCHANGED << crashed, busTopics, busSubs, topW, devUsed, 
                                    subCh, idxR, idxW, index, topicChans, chans, 
                                    nextChan, installQ, uninstallQ, installed, 
-                                   errClosed, subTopic, subState, unReq, resp, 
-                                   emitted, fmu, timer, coSpawned, ticks, 
-                                   fires, latestBlock, lastIndexed, hdr, 
+                                   errClosed, subTopic, subState, unTotal, 
+                                   unReq, resp, emitted, fmu, timer, coSpawned, 
+                                   ticks, fires, latestBlock, lastIndexed, hdr, 
                                    newBlockSig, quitBuf, quit, f, ft, ech, 
                                    addOk, inUse, cch, pch, ptOk, round, cs, ct, 
-                                   seen, ok, polls, found, me, h, lb, sent >>
+                                   seen, ok, polls, found, fx, me, h, lb, sent >>
 
 co_err(self) == /\ pc[self] = "co_err"
                 /\ fmu = 0
@@ -1344,12 +1449,12 @@ co_err(self) == /\ pc[self] = "co_err"
                 /\ UNCHANGED << crashed, busTopics, busSubs, topW, subCh, idxR, 
                                 idxW, index, topicChans, chans, nextChan, 
                                 installQ, uninstallQ, installed, errClosed, 
-                                subTopic, subState, unReq, resp, emitted, fmu, 
-                                timer, coSpawned, ticks, fires, latestBlock, 
-                                lastIndexed, hdr, newBlockSig, quitBuf, quit, 
-                                f, ft, ech, addOk, inUse, cch, pch, ptOk, 
-                                round, cs, ct, seen, ok, polls, found, me, h, 
-                                lb, sent >>
+                                subTopic, subState, unTotal, unReq, resp, 
+                                emitted, fmu, timer, coSpawned, ticks, fires, 
+                                latestBlock, lastIndexed, hdr, newBlockSig, 
+                                quitBuf, quit, f, ft, ech, addOk, inUse, cch, 
+                                pch, ptOk, round, cs, ct, seen, ok, polls, 
+                                found, fx, me, h, lb, sent >>
 
 co_exit(self) == /\ pc[self] = "co_exit"
                  /\ busSubs' = [busSubs EXCEPT ![subTopic[me[self]]] = busSubs[subTopic[me[self]]] \ {me[self]}]
@@ -1357,12 +1462,12 @@ co_exit(self) == /\ pc[self] = "co_exit"
                  /\ UNCHANGED << crashed, busTopics, topW, devUsed, subCh, 
                                  idxR, idxW, index, topicChans, chans, 
                                  nextChan, installQ, uninstallQ, installed, 
-                                 errClosed, subTopic, subState, unReq, resp, 
-                                 emitted, fmu, filters, timer, coSpawned, 
+                                 errClosed, subTopic, subState, unTotal, unReq, 
+                                 resp, emitted, fmu, filters, timer, coSpawned, 
                                  ticks, fires, latestBlock, lastIndexed, hdr, 
                                  newBlockSig, quitBuf, quit, f, ft, ech, addOk, 
                                  inUse, cch, pch, ptOk, round, cs, ct, seen, 
-                                 ok, polls, found, me, h, lb, sent >>
+                                 ok, polls, found, fx, me, h, lb, sent >>
 
 consumer(self) == co_sel(self) \/ co_ev(self) \/ co_closed(self)
                      \/ co_err(self) \/ co_exit(self)
@@ -1382,16 +1487,17 @@ tl_idle == /\ pc[TL] = "tl_idle"
            /\ UNCHANGED << crashed, busTopics, busSubs, topW, devUsed, subCh, 
                            idxR, idxW, index, topicChans, chans, nextChan, 
                            installQ, uninstallQ, installed, errClosed, 
-                           subTopic, subState, unReq, resp, emitted, filters, 
-                           coSpawned, latestBlock, lastIndexed, hdr, 
+                           subTopic, subState, unTotal, unReq, resp, emitted, 
+                           filters, coSpawned, latestBlock, lastIndexed, hdr, 
                            newBlockSig, quitBuf, quit, f, ft, ech, addOk, 
                            inUse, cch, pch, ptOk, round, cs, ct, seen, ok, 
-                           polls, found, me, h, lb, sent >>
+                           polls, found, fx, me, h, lb, sent >>
 
 tl_sweep == /\ pc[TL] = "tl_sweep"
             /\ \/ /\ \E x \in {y \in filters : timer[y] = "fired" \/ (TraceMode /\ timer[y] = "running")}:
                        /\ timer' = [timer EXCEPT ![x] = "drained"]
                        /\ unReq' = [unReq EXCEPT ![x] = unReq[x] + 1]
+                       /\ unTotal' = [unTotal EXCEPT ![x] = unTotal[x] + 1]
                        /\ IF subState[x] = "live"
                              THEN /\ subState' = [subState EXCEPT ![x] = "expired"]
                              ELSE /\ TRUE
@@ -1402,15 +1508,15 @@ tl_sweep == /\ pc[TL] = "tl_sweep"
                \/ /\ TraceMode \/ {y \in filters : timer[y] = "fired"} = {}
                   /\ fmu' = 0
                   /\ pc' = [pc EXCEPT ![TL] = "tl_idle"]
-                  /\ UNCHANGED <<subState, unReq, filters, timer>>
+                  /\ UNCHANGED <<subState, unTotal, unReq, filters, timer>>
             /\ UNCHANGED << crashed, busTopics, busSubs, topW, devUsed, subCh, 
                             idxR, idxW, index, topicChans, chans, nextChan, 
                             installQ, uninstallQ, installed, errClosed, 
                             subTopic, resp, emitted, coSpawned, ticks, fires, 
                             latestBlock, lastIndexed, hdr, newBlockSig, 
                             quitBuf, quit, f, ft, ech, addOk, inUse, cch, pch, 
-                            ptOk, round, cs, ct, seen, ok, polls, found, me, h, 
-                            lb, sent >>
+                            ptOk, round, cs, ct, seen, ok, polls, found, fx, 
+                            me, h, lb, sent >>
 
 timeoutLoop == tl_idle \/ tl_sweep
 
@@ -1426,11 +1532,11 @@ src_send == /\ pc[SRC] = "src_send"
             /\ UNCHANGED << crashed, busTopics, busSubs, topW, devUsed, subCh, 
                             idxR, idxW, index, topicChans, chans, nextChan, 
                             installQ, uninstallQ, installed, errClosed, 
-                            subTopic, subState, unReq, fmu, filters, timer, 
-                            coSpawned, ticks, fires, latestBlock, lastIndexed, 
-                            hdr, newBlockSig, quitBuf, quit, f, ft, ech, addOk, 
-                            inUse, cch, pch, ptOk, round, cs, ct, seen, ok, 
-                            polls, found, me, h, lb, sent >>
+                            subTopic, subState, unTotal, unReq, fmu, filters, 
+                            timer, coSpawned, ticks, fires, latestBlock, 
+                            lastIndexed, hdr, newBlockSig, quitBuf, quit, f, 
+                            ft, ech, addOk, inUse, cch, pch, ptOk, round, cs, 
+                            ct, seen, ok, polls, found, fx, me, h, lb, sent >>
 
 source == src_send
 
@@ -1440,11 +1546,11 @@ ih_sel == /\ pc[IH] = "ih_sel"
           /\ UNCHANGED << crashed, busTopics, busSubs, topW, devUsed, subCh, 
                           idxR, idxW, index, topicChans, chans, nextChan, 
                           installQ, uninstallQ, installed, errClosed, subTopic, 
-                          subState, unReq, resp, emitted, fmu, filters, timer, 
-                          coSpawned, ticks, fires, latestBlock, lastIndexed, 
-                          hdr, newBlockSig, quitBuf, quit, f, ft, ech, addOk, 
-                          inUse, cch, pch, ptOk, round, cs, ct, seen, ok, 
-                          polls, found, me, h, lb, sent >>
+                          subState, unTotal, unReq, resp, emitted, fmu, 
+                          filters, timer, coSpawned, ticks, fires, latestBlock, 
+                          lastIndexed, hdr, newBlockSig, quitBuf, quit, f, ft, 
+                          ech, addOk, inUse, cch, pch, ptOk, round, cs, ct, 
+                          seen, ok, polls, found, fx, me, h, lb, sent >>
 
 ih_loop == /\ pc[IH] = "ih_loop"
            /\ \/ /\ hdr # <<>>
@@ -1462,11 +1568,11 @@ ih_loop == /\ pc[IH] = "ih_loop"
            /\ UNCHANGED << crashed, busTopics, busSubs, topW, devUsed, subCh, 
                            idxR, idxW, index, topicChans, chans, nextChan, 
                            installQ, uninstallQ, installed, errClosed, 
-                           subTopic, subState, unReq, resp, emitted, fmu, 
-                           filters, timer, coSpawned, ticks, fires, 
+                           subTopic, subState, unTotal, unReq, resp, emitted, 
+                           fmu, filters, timer, coSpawned, ticks, fires, 
                            latestBlock, lastIndexed, newBlockSig, quit, f, ft, 
                            ech, addOk, inUse, cch, pch, ptOk, round, cs, ct, 
-                           seen, ok, polls, found, me, lb, sent >>
+                           seen, ok, polls, found, fx, me, lb, sent >>
 
 ih_cmp == /\ pc[IH] = "ih_cmp"
           /\ IF h > latestBlock
@@ -1475,11 +1581,11 @@ ih_cmp == /\ pc[IH] = "ih_cmp"
           /\ UNCHANGED << crashed, busTopics, busSubs, topW, devUsed, subCh, 
                           idxR, idxW, index, topicChans, chans, nextChan, 
                           installQ, uninstallQ, installed, errClosed, subTopic, 
-                          subState, unReq, resp, emitted, fmu, filters, timer, 
-                          coSpawned, ticks, fires, latestBlock, lastIndexed, 
-                          hdr, newBlockSig, quitBuf, quit, f, ft, ech, addOk, 
-                          inUse, cch, pch, ptOk, round, cs, ct, seen, ok, 
-                          polls, found, me, h, lb, sent >>
+                          subState, unTotal, unReq, resp, emitted, fmu, 
+                          filters, timer, coSpawned, ticks, fires, latestBlock, 
+                          lastIndexed, hdr, newBlockSig, quitBuf, quit, f, ft, 
+                          ech, addOk, inUse, cch, pch, ptOk, round, cs, ct, 
+                          seen, ok, polls, found, fx, me, h, lb, sent >>
 
 ih_set == /\ pc[IH] = "ih_set"
           /\ latestBlock' = h
@@ -1487,11 +1593,11 @@ ih_set == /\ pc[IH] = "ih_set"
           /\ UNCHANGED << crashed, busTopics, busSubs, topW, devUsed, subCh, 
                           idxR, idxW, index, topicChans, chans, nextChan, 
                           installQ, uninstallQ, installed, errClosed, subTopic, 
-                          subState, unReq, resp, emitted, fmu, filters, timer, 
-                          coSpawned, ticks, fires, lastIndexed, hdr, 
-                          newBlockSig, quitBuf, quit, f, ft, ech, addOk, inUse, 
-                          cch, pch, ptOk, round, cs, ct, seen, ok, polls, 
-                          found, me, h, lb, sent >>
+                          subState, unTotal, unReq, resp, emitted, fmu, 
+                          filters, timer, coSpawned, ticks, fires, lastIndexed, 
+                          hdr, newBlockSig, quitBuf, quit, f, ft, ech, addOk, 
+                          inUse, cch, pch, ptOk, round, cs, ct, seen, ok, 
+                          polls, found, fx, me, h, lb, sent >>
 
 ih_sig == /\ pc[IH] = "ih_sig"
           /\ IF newBlockSig = 0
@@ -1502,11 +1608,11 @@ ih_sig == /\ pc[IH] = "ih_sig"
           /\ UNCHANGED << crashed, busTopics, busSubs, topW, devUsed, subCh, 
                           idxR, idxW, index, topicChans, chans, nextChan, 
                           installQ, uninstallQ, installed, errClosed, subTopic, 
-                          subState, unReq, resp, emitted, fmu, filters, timer, 
-                          coSpawned, ticks, fires, latestBlock, lastIndexed, 
-                          hdr, quitBuf, quit, f, ft, ech, addOk, inUse, cch, 
-                          pch, ptOk, round, cs, ct, seen, ok, polls, found, me, 
-                          h, lb, sent >>
+                          subState, unTotal, unReq, resp, emitted, fmu, 
+                          filters, timer, coSpawned, ticks, fires, latestBlock, 
+                          lastIndexed, hdr, quitBuf, quit, f, ft, ech, addOk, 
+                          inUse, cch, pch, ptOk, round, cs, ct, seen, ok, 
+                          polls, found, fx, me, h, lb, sent >>
 
 ih_q == /\ pc[IH] = "ih_q"
         /\ IF "D27" \in Known
@@ -1517,11 +1623,11 @@ ih_q == /\ pc[IH] = "ih_q"
         /\ UNCHANGED << crashed, busTopics, busSubs, topW, devUsed, subCh, 
                         idxR, idxW, index, topicChans, chans, nextChan, 
                         installQ, uninstallQ, installed, errClosed, subTopic, 
-                        subState, unReq, resp, emitted, fmu, filters, timer, 
-                        coSpawned, ticks, fires, latestBlock, lastIndexed, hdr, 
-                        newBlockSig, quit, f, ft, ech, addOk, inUse, cch, pch, 
-                        ptOk, round, cs, ct, seen, ok, polls, found, me, h, lb, 
-                        sent >>
+                        subState, unTotal, unReq, resp, emitted, fmu, filters, 
+                        timer, coSpawned, ticks, fires, latestBlock, 
+                        lastIndexed, hdr, newBlockSig, quit, f, ft, ech, addOk, 
+                        inUse, cch, pch, ptOk, round, cs, ct, seen, ok, polls, 
+                        found, fx, me, h, lb, sent >>
 
 ih_done == /\ pc[IH] = "ih_done"
            /\ TRUE
@@ -1529,12 +1635,12 @@ ih_done == /\ pc[IH] = "ih_done"
            /\ UNCHANGED << crashed, busTopics, busSubs, topW, devUsed, subCh, 
                            idxR, idxW, index, topicChans, chans, nextChan, 
                            installQ, uninstallQ, installed, errClosed, 
-                           subTopic, subState, unReq, resp, emitted, fmu, 
-                           filters, timer, coSpawned, ticks, fires, 
+                           subTopic, subState, unTotal, unReq, resp, emitted, 
+                           fmu, filters, timer, coSpawned, ticks, fires, 
                            latestBlock, lastIndexed, hdr, newBlockSig, quitBuf, 
                            quit, f, ft, ech, addOk, inUse, cch, pch, ptOk, 
-                           round, cs, ct, seen, ok, polls, found, me, h, lb, 
-                           sent >>
+                           round, cs, ct, seen, ok, polls, found, fx, me, h, 
+                           lb, sent >>
 
 idxHeader == ih_sel \/ ih_loop \/ ih_cmp \/ ih_set \/ ih_sig \/ ih_q
                 \/ ih_done
@@ -1545,12 +1651,12 @@ im_start == /\ pc[IM] = "im_start"
             /\ UNCHANGED << crashed, busTopics, busSubs, topW, devUsed, subCh, 
                             idxR, idxW, index, topicChans, chans, nextChan, 
                             installQ, uninstallQ, installed, errClosed, 
-                            subTopic, subState, unReq, resp, emitted, fmu, 
-                            filters, timer, coSpawned, ticks, fires, 
+                            subTopic, subState, unTotal, unReq, resp, emitted, 
+                            fmu, filters, timer, coSpawned, ticks, fires, 
                             latestBlock, lastIndexed, hdr, newBlockSig, 
                             quitBuf, quit, f, ft, ech, addOk, inUse, cch, pch, 
-                            ptOk, round, cs, ct, seen, ok, polls, found, me, h, 
-                            lb, sent >>
+                            ptOk, round, cs, ct, seen, ok, polls, found, fx, 
+                            me, h, lb, sent >>
 
 im_top == /\ pc[IM] = "im_top"
           /\ \/ /\ quit
@@ -1565,11 +1671,11 @@ im_top == /\ pc[IM] = "im_top"
           /\ UNCHANGED << crashed, busTopics, busSubs, topW, devUsed, subCh, 
                           idxR, idxW, index, topicChans, chans, nextChan, 
                           installQ, uninstallQ, installed, errClosed, subTopic, 
-                          subState, unReq, resp, emitted, fmu, filters, timer, 
-                          coSpawned, ticks, fires, latestBlock, lastIndexed, 
-                          hdr, newBlockSig, quit, f, ft, ech, addOk, inUse, 
-                          cch, pch, ptOk, round, cs, ct, seen, ok, polls, 
-                          found, me, h, lb, sent >>
+                          subState, unTotal, unReq, resp, emitted, fmu, 
+                          filters, timer, coSpawned, ticks, fires, latestBlock, 
+                          lastIndexed, hdr, newBlockSig, quit, f, ft, ech, 
+                          addOk, inUse, cch, pch, ptOk, round, cs, ct, seen, 
+                          ok, polls, found, fx, me, h, lb, sent >>
 
 im_chk == /\ pc[IM] = "im_chk"
           /\ lb' = latestBlock
@@ -1579,11 +1685,11 @@ im_chk == /\ pc[IM] = "im_chk"
           /\ UNCHANGED << crashed, busTopics, busSubs, topW, devUsed, subCh, 
                           idxR, idxW, index, topicChans, chans, nextChan, 
                           installQ, uninstallQ, installed, errClosed, subTopic, 
-                          subState, unReq, resp, emitted, fmu, filters, timer, 
-                          coSpawned, ticks, fires, latestBlock, lastIndexed, 
-                          hdr, newBlockSig, quitBuf, quit, f, ft, ech, addOk, 
-                          inUse, cch, pch, ptOk, round, cs, ct, seen, ok, 
-                          polls, found, me, h, sent >>
+                          subState, unTotal, unReq, resp, emitted, fmu, 
+                          filters, timer, coSpawned, ticks, fires, latestBlock, 
+                          lastIndexed, hdr, newBlockSig, quitBuf, quit, f, ft, 
+                          ech, addOk, inUse, cch, pch, ptOk, round, cs, ct, 
+                          seen, ok, polls, found, fx, me, h, sent >>
 
 im_wait == /\ pc[IM] = "im_wait"
            /\ \/ /\ newBlockSig = 1
@@ -1598,11 +1704,11 @@ im_wait == /\ pc[IM] = "im_wait"
            /\ UNCHANGED << crashed, busTopics, busSubs, topW, devUsed, subCh, 
                            idxR, idxW, index, topicChans, chans, nextChan, 
                            installQ, uninstallQ, installed, errClosed, 
-                           subTopic, subState, unReq, resp, emitted, fmu, 
-                           filters, timer, coSpawned, ticks, fires, 
+                           subTopic, subState, unTotal, unReq, resp, emitted, 
+                           fmu, filters, timer, coSpawned, ticks, fires, 
                            latestBlock, lastIndexed, hdr, quitBuf, quit, f, ft, 
                            ech, addOk, inUse, cch, pch, ptOk, round, cs, ct, 
-                           seen, ok, polls, found, me, h, lb, sent >>
+                           seen, ok, polls, found, fx, me, h, lb, sent >>
 
 im_index == /\ pc[IM] = "im_index"
             /\ IF lastIndexed < latestBlock
@@ -1613,11 +1719,11 @@ im_index == /\ pc[IM] = "im_index"
             /\ UNCHANGED << crashed, busTopics, busSubs, topW, devUsed, subCh, 
                             idxR, idxW, index, topicChans, chans, nextChan, 
                             installQ, uninstallQ, installed, errClosed, 
-                            subTopic, subState, unReq, resp, emitted, fmu, 
-                            filters, timer, coSpawned, ticks, fires, 
+                            subTopic, subState, unTotal, unReq, resp, emitted, 
+                            fmu, filters, timer, coSpawned, ticks, fires, 
                             latestBlock, hdr, newBlockSig, quitBuf, quit, f, 
                             ft, ech, addOk, inUse, cch, pch, ptOk, round, cs, 
-                            ct, seen, ok, polls, found, me, h, lb, sent >>
+                            ct, seen, ok, polls, found, fx, me, h, lb, sent >>
 
 im_q == /\ pc[IM] = "im_q"
         /\ IF "D27" \in Known
@@ -1628,11 +1734,11 @@ im_q == /\ pc[IM] = "im_q"
         /\ UNCHANGED << crashed, busTopics, busSubs, topW, devUsed, subCh, 
                         idxR, idxW, index, topicChans, chans, nextChan, 
                         installQ, uninstallQ, installed, errClosed, subTopic, 
-                        subState, unReq, resp, emitted, fmu, filters, timer, 
-                        coSpawned, ticks, fires, latestBlock, lastIndexed, hdr, 
-                        newBlockSig, quit, f, ft, ech, addOk, inUse, cch, pch, 
-                        ptOk, round, cs, ct, seen, ok, polls, found, me, h, lb, 
-                        sent >>
+                        subState, unTotal, unReq, resp, emitted, fmu, filters, 
+                        timer, coSpawned, ticks, fires, latestBlock, 
+                        lastIndexed, hdr, newBlockSig, quit, f, ft, ech, addOk, 
+                        inUse, cch, pch, ptOk, round, cs, ct, seen, ok, polls, 
+                        found, fx, me, h, lb, sent >>
 
 im_done == /\ pc[IM] = "im_done"
            /\ TRUE
@@ -1640,12 +1746,12 @@ im_done == /\ pc[IM] = "im_done"
            /\ UNCHANGED << crashed, busTopics, busSubs, topW, devUsed, subCh, 
                            idxR, idxW, index, topicChans, chans, nextChan, 
                            installQ, uninstallQ, installed, errClosed, 
-                           subTopic, subState, unReq, resp, emitted, fmu, 
-                           filters, timer, coSpawned, ticks, fires, 
+                           subTopic, subState, unTotal, unReq, resp, emitted, 
+                           fmu, filters, timer, coSpawned, ticks, fires, 
                            latestBlock, lastIndexed, hdr, newBlockSig, quitBuf, 
                            quit, f, ft, ech, addOk, inUse, cch, pch, ptOk, 
-                           round, cs, ct, seen, ok, polls, found, me, h, lb, 
-                           sent >>
+                           round, cs, ct, seen, ok, polls, found, fx, me, h, 
+                           lb, sent >>
 
 idxMain == im_start \/ im_top \/ im_chk \/ im_wait \/ im_index \/ im_q
               \/ im_done
@@ -1656,12 +1762,12 @@ iq_start == /\ pc[IQ] = "iq_start"
             /\ UNCHANGED << crashed, busTopics, busSubs, topW, devUsed, subCh, 
                             idxR, idxW, index, topicChans, chans, nextChan, 
                             installQ, uninstallQ, installed, errClosed, 
-                            subTopic, subState, unReq, resp, emitted, fmu, 
-                            filters, timer, coSpawned, ticks, fires, 
+                            subTopic, subState, unTotal, unReq, resp, emitted, 
+                            fmu, filters, timer, coSpawned, ticks, fires, 
                             latestBlock, lastIndexed, hdr, newBlockSig, 
                             quitBuf, quit, f, ft, ech, addOk, inUse, cch, pch, 
-                            ptOk, round, cs, ct, seen, ok, polls, found, me, h, 
-                            lb, sent >>
+                            ptOk, round, cs, ct, seen, ok, polls, found, fx, 
+                            me, h, lb, sent >>
 
 iq_loop == /\ pc[IQ] = "iq_loop"
            /\ IF ~quit
@@ -1677,11 +1783,11 @@ iq_loop == /\ pc[IQ] = "iq_loop"
            /\ UNCHANGED << crashed, busTopics, busSubs, topW, devUsed, subCh, 
                            idxR, idxW, index, topicChans, chans, nextChan, 
                            installQ, uninstallQ, installed, errClosed, 
-                           subTopic, subState, unReq, resp, emitted, fmu, 
-                           filters, timer, coSpawned, ticks, fires, 
+                           subTopic, subState, unTotal, unReq, resp, emitted, 
+                           fmu, filters, timer, coSpawned, ticks, fires, 
                            latestBlock, lastIndexed, newBlockSig, quitBuf, f, 
                            ft, ech, addOk, inUse, cch, pch, ptOk, round, cs, 
-                           ct, seen, ok, polls, found, me, h, lb >>
+                           ct, seen, ok, polls, found, fx, me, h, lb >>
 
 idxEnv == iq_start \/ iq_loop
 
